@@ -55,6 +55,7 @@ type specEnv struct {
 
 	atInstr         bool
 	onlyGhostLocals bool
+	top             *State // the live state: function-level ghosts are locals and are not affected by old()
 }
 
 type specFail string
@@ -85,8 +86,18 @@ func (e *Enc) newSpecEnv(cur, old *State) *specEnv {
 
 func (env *specEnv) withState(cur, old *State) *specEnv {
 	c := *env
+	if c.top == nil {
+		c.top = env.cur
+	}
 	c.cur, c.old = cur, old
 	return &c
+}
+
+func (env *specEnv) live() *State {
+	if env.top != nil {
+		return env.top
+	}
+	return env.cur
 }
 
 func (env *specEnv) bind(name string, v SV) *specEnv {
@@ -257,6 +268,15 @@ func (env *specEnv) eval(x SExpr) SV {
 			}
 		}
 		return SV{T: fmt.Sprintf("(%s (%s) %s)", q, strings.Join(binders, " "), body), Sort: "Bool"}
+	case *SLambda:
+		// array comprehension: a fresh array A with forall j. A[j] == body(j)
+		name := x.Var + "!l"
+		ne := env.bind(x.Var, SV{T: name, Sort: "Int"})
+		body := ne.eval(x.Body)
+		arr := e.fresh("lambda", fmt.Sprintf("(Array Int %s)", body.Sort))
+		nb := tEq(tSel(arr, name), body.T)
+		e.assumeG(fmt.Sprintf("(forall ((%s Int)) (! %s :pattern ((select %s %s))))", name, nb, arr, name))
+		return SV{T: arr, Sort: fmt.Sprintf("(Array Int %s)", body.Sort)}
 	case *SSel:
 		return env.sel(x)
 	case *SIndex:
@@ -431,7 +451,7 @@ func (env *specEnv) ident(name string) SV {
 		for _, g := range e.fc.Ghosts {
 			if g.Name == name {
 				srt, _ := ghostSort(e, g.Sort)
-				return SV{T: e.hget(env.cur, "$g$"+name, srt), Sort: srt}
+				return SV{T: e.hget(env.live(), "$g$"+name, srt), Sort: srt}
 			}
 		}
 	}
@@ -839,7 +859,19 @@ func (env *specEnv) call(x *SCall) SV {
 		return SV{T: tLt(ref, e.alloc(env.cur)), Sort: "Bool"}
 	case "inv":
 		v := arg(0)
-		return SV{T: e.typeInv(env, v), Sort: "Bool"}
+		return SV{T: e.typeInv(env, v, nil, false), Sort: "Bool"}
+	case "invexcept", "invonly":
+		v := arg(0)
+		labels := map[string]bool{}
+		for _, a := range x.Args[1:] {
+			lit, ok := a.(*SLit)
+			if !ok || lit.Kind != "string" {
+				env.fail("%s needs label strings", id.Name)
+			}
+			l, _ := strconv.Unquote(lit.Val)
+			labels[l] = true
+		}
+		return SV{T: e.typeInv(env, v, labels, id.Name == "invonly"), Sort: "Bool"}
 	case "haskey":
 		m, k := arg(0), arg(1)
 		mt, ok := m.GT.Underlying().(*types.Map)
@@ -868,6 +900,12 @@ func (env *specEnv) call(x *SCall) SV {
 			env.fail("unknown interface %s", name)
 		}
 		return SV{T: e.implementsPred(v.T, it), Sort: "Bool"}
+	case "update":
+		a, i, v := arg(0), arg(1), arg(2)
+		if !strings.HasPrefix(a.Sort, "(Array ") {
+			env.fail("update on %s", a.Sort)
+		}
+		return SV{T: tStore(a.T, i.T, v.T), Sort: a.Sort, GT: a.GT}
 	case "min", "max":
 		a, b := arg(0), arg(1)
 		c := sx("<=", a.T, b.T)
@@ -961,7 +999,7 @@ func (e *Enc) assumeGFront(t Term) {
 }
 
 // typeInv expands the declared invariants of v's type with self := v.
-func (e *Enc) typeInv(env *specEnv, v SV) Term {
+func (e *Enc) typeInv(env *specEnv, v SV, labels map[string]bool, only bool) Term {
 	if v.GT == nil {
 		env.fail("inv() of untyped value")
 	}
@@ -980,6 +1018,9 @@ func (e *Enc) typeInv(env *specEnv, v SV) Term {
 	}
 	var cs []Term
 	for _, cl := range tc.Invs {
+		if labels != nil && labels[cl.Label] != only {
+			continue
+		}
 		cs = append(cs, ne.evalBool(cl.Expr))
 	}
 	return tAnd(cs...)
